@@ -269,7 +269,7 @@ def main(tier, seed):
             "simplify:fired", "string:split", "sugar:off", "layout:ws4", "layout:nops0", "layout:nops1"]
     return finish(PID, tier, seed, ev, RULE, t0,
                   assumptions=["equivalences as stated in doc/syntax.rst; ?(E) vs ([E] != []) only where E ends by pushing a value",
-                               "string literals nested inside %( %) avoid backslash and quote characters (the embedded scanner tracks quotes textually)"],
+                               "string literals nested inside %( %) keep their backslashes and quotes (in every escape spelling); comments inside %( %) avoid brackets and quotes (known finding)"],
                   health={("class %s non-empty" % k): ev.labels.get(k, 0) > 0 for k in need})
 
 
